@@ -33,6 +33,10 @@ def compile_pattern(src: str) -> ast.AST:
     return _cache[src]
 
 
+_MIRROR = {ast.Eq: ast.Eq, ast.NotEq: ast.NotEq, ast.Lt: ast.Gt, ast.Gt: ast.Lt, ast.LtE: ast.GtE, ast.GtE: ast.LtE}
+_in_mirror = [False]
+
+
 def _is_any_body(body) -> bool:
     return isinstance(body, list) and len(body) == 1 and isinstance(body[0], ast.Expr) \
         and isinstance(body[0].value, ast.Constant) and body[0].value.value is Ellipsis
@@ -54,6 +58,21 @@ def unify(p, n, b: Dict[str, object]) -> bool:
             return b[p.id] == txt
         b[p.id] = txt
         return True
+    if isinstance(p, ast.Compare) and isinstance(n, ast.Compare) and len(p.ops) == 1 and len(n.ops) == 1 \
+            and type(p.ops[0]) in _MIRROR and not _in_mirror[0]:
+        # a comparison pattern matches the code in either orientation (a > b == b < a)
+        for cand in (p, ast.Compare(p.comparators[0], [_MIRROR[type(p.ops[0])]()], [p.left])):
+            b2 = dict(b)
+            _in_mirror[0] = True
+            try:
+                ok = unify(cand, n, b2)
+            finally:
+                _in_mirror[0] = False
+            if ok:
+                b.clear()
+                b.update(b2)
+                return True
+        return False
     if isinstance(p, ast.AST):
         if type(p) is not type(n):
             return False
